@@ -152,6 +152,10 @@ struct ares_event_thread {
  *  \param[in]  signal_cb    Optional. Callback to call to trigger an event.
  *  \return ARES_SUCCESS on success
  */
+/*! Wake the event thread so it re-reads its update list and recomputes how
+ *  long it may sleep. */
+void ares_event_thread_wake(const ares_event_thread_t *e);
+
 ares_status_t ares_event_update(ares_event_t **event, ares_event_thread_t *e,
                                 ares_event_flags_t flags, ares_event_cb_t cb,
                                 ares_socket_t fd, void *data,
